@@ -53,6 +53,7 @@ type Contract struct {
 	Line         int
 	Asserts      []Clause
 	Defines      []Clause // iface: definitional postconditions (assumed at calls, not checked on implementers)
+	Owns         []string // type names (pkg.Type) whose objects are private mutable state: writes to them need no frame obligation
 	Establishes  bool     // rep-check function: the invariant of the receiver's type is NOT assumed
 	Decreases    *Clause  // recursion measure
 	SplitExpr    *Clause  // case split: the function is verified once per value
@@ -69,7 +70,7 @@ var clauseKW = map[string]bool{
 	"func": true, "iface": true, "type": true, "lemma": true, "property": true, "requires": true, "ensures": true,
 	"panics_if": true, "panics_only_if": true, "panics_iff": true, "maypanic": true, "modifies": true,
 	"let": true, "loop": true, "invariant": true, "decreases": true, "inline": true, "trusted": true,
-	"recover": true, "bounded_view": true, "end": true, "defines": true, "view": true, "split": true, "establishes": true,
+	"recover": true, "bounded_view": true, "end": true, "defines": true, "view": true, "split": true, "establishes": true, "owns": true,
 }
 
 type ContractSet struct {
@@ -242,6 +243,10 @@ func parseContractText(text, path, pkg string, cs *ContractSet) error {
 				}
 			case "establishes":
 				c.Establishes = true
+			case "owns":
+				for _, t := range strings.Split(rc.text, ",") {
+					c.Owns = append(c.Owns, strings.TrimSpace(t))
+				}
 			case "defines":
 				c.Defines = append(c.Defines, cl)
 			case "view":
